@@ -43,12 +43,13 @@ type schedEvent struct {
 
 // Trace is one complete execution.
 type Trace struct {
-	Choices  []int      // thread chosen at every decision point
-	Enabled  [][]int    // enabled threads at every decision point (canonical order)
-	Ops      []string   // label of the operation that was released at every decision point
-	Deadlock bool       // no enabled thread although some are not finished (cannot happen with this scheduler unless a thread blocks outside Yield)
-	Panics   []string   // panics of thread bodies
-	Hung     bool       // a released thread neither yielded nor finished within the watchdog (blocked outside the scheduler)
+	Choices  []int    // thread chosen at every decision point
+	Enabled  [][]int  // enabled threads at every decision point (canonical order)
+	Ops      []string // label of the operation that was released at every decision point
+	Deadlock bool     // no enabled thread although some are not finished (cannot happen with this scheduler unless a thread blocks outside Yield)
+	Panics   []string // panics of thread bodies
+	Hung     bool     // a released thread neither yielded nor finished within the watchdog (blocked outside the scheduler)
+	Diverged bool     // a replayed prefix was not reproducible
 }
 
 func NewSched() *Sched { return &Sched{byGoid: map[int64]int{}} }
@@ -119,7 +120,11 @@ func (s *Sched) Run(fns []func(), prefix []int) *Trace {
 				}
 			}
 			if !ok {
-				panic(fmt.Sprintf("mc.Sched: replay diverged at step %d: choice %d not in enabled %v (nondeterminism not owned)", step, choice, enabled))
+				// the execution under replay did not reproduce the recorded one: nondeterminism the harness
+				// does not own (e.g. map iteration order changing the request sequence). Not a verdict: the
+				// branch is abandoned and the exploration is reported as not exhaustive.
+				t.Diverged = true
+				choice = enabled[0]
 			}
 		}
 		t.Choices = append(t.Choices, choice)
@@ -202,6 +207,11 @@ func ExploreSchedules(r *Report, bound int, maxRuns int, mk func(s *Sched) (thre
 		desc := map[string]interface{}{"schedule": t.Choices, "ops": t.Ops}
 		if t.Hung {
 			r.Violate("HUNG", "a thread blocked outside the scheduler (deadlock or lost wake-up)", desc)
+			return
+		}
+		if t.Diverged {
+			r.Note("replay-diverged")
+			r.Capped("a replayed schedule prefix was not reproducible (unowned nondeterminism); branch abandoned")
 			return
 		}
 		for _, p := range t.Panics {
